@@ -29,8 +29,27 @@ def oracle_req(case, reply):
         return reqs
     if w[0] == "lr" and len(w) >= 14:
         # hypothesis of lr_no_internal, evaluated on the real table
-        return "lr-table-complete " + " ".join(w[1:4]) + " " + w[13]
+        reqs = ["lr-table-complete " + " ".join(w[1:4]) + " " + w[13]]
+        key = " ".join(w[1:4])
+        if key not in _seen:
+            # hypothesis of lr_terminates_bound: no loop of reductions without consuming input
+            _seen.add(key)
+            reqs.append("lr-term-ok " + key + " " + w[13])
+        return reqs
     return None
+
+
+def attribute(case, reply, why):
+    # signature of F24: the verified checker lrNoReduceLoopB rejects the real table
+    return "F24" if why.startswith("fail reduce-loop") else None
+
+
+def table_has_reduce_loop(case):
+    w = case.split()
+    if w[0] != "lr" or len(w) < 14:
+        return False
+    rep = common.model_lines(["lr-term-ok " + " ".join(w[1:4]) + " " + w[13]])
+    return bool(rep) and rep[0].startswith("fail reduce-loop")
 
 
 def nontrivial(case):
@@ -113,7 +132,7 @@ def extra(ctx, state):
             elif reps1[0].split(" ")[0].startswith(BAD):
                 other.append((c, reps1[0]))
     known = {k["id"]: k for k in common.load_known(ctx.pid)}
-    f24 = [h for h in hangs if h[0].split()[0] == "lr" and has_cycle(h[0].split()[7], h[0].split()[8])]
+    f24 = [h for h in hangs if table_has_reduce_loop(h[0])]
     new = [h for h in hangs if h not in f24]
     cov.update({"cyclic_grammar_runs": checked, "non_terminating_or_memory_exhausting_runs": len(hangs),
                 "attributed_to_F24": len(f24)})
@@ -134,9 +153,10 @@ SPEC = {
     "prop": "prun",
     "gen_extra": ["junk"],
     "mod": "ParolModel.Props.C19",
-    "more_mods": ["ParolModel.Props.C19b", "ParolModel.Props.C19c", "ParolModel.Props.C19d"],
+    "more_mods": ["ParolModel.Props.C19b", "ParolModel.Props.C19c", "ParolModel.Props.C19d", "ParolModel.Props.C19e"],
     "files": FILES,
     "oracle_req": oracle_req,
+    "attribute": attribute,
     "nontrivial": nontrivial,
     "extra": extra,
     "level": "proof",
@@ -147,17 +167,18 @@ SPEC = {
     "assumptions": [
         "ll_no_internal / lr_no_internal are about the models `llRun` / `lrRun` (ties of C01 / C03); their hypotheses, the checkers tablesInRangeB and lrTableComplete, are evaluated by Lean on every real LL / LALR(1) table explored",
         "LL termination is a theorem about the model under tablesSoundB and noLeftRecB (both evaluated on every real table); the step bound is about loop iterations of llLoop, real time is not modelled",
-        "LR termination (finding F24 shows it is false for cyclic grammars) and the recovery machinery are NOT proved; they are explored only (catch_unwind, watchdog)",
+        "LR termination is a theorem about the model under lrNoReduceLoopB, evaluated on every real table; tables that fail it are instances of finding F24 (the watchdog confirms the real parser hangs on them)",
+        "the recovery machinery is NOT modelled; it is explored only (catch_unwind, watchdog)",
         "stack exhaustion, allocation failure and real time are runtime behaviour the model cannot exhibit",
     ],
 }
 
 CLAIM = {
     "category": "proof",
-    "text": "Theorem ll_no_internal: for every LL table set accepted by the verified checker tablesInRangeB (start, left-hand sides, non-terminals and predictable productions in range; no end-of-production marker or T(0) inside a right-hand side; sorted automata; an accepting start state has no transitions) and EVERY input and option record, the model of LLKParser::parse_into never reaches an internal outcome — no index out of range, no parse-tree-stack underflow in process_item_stack (stack discipline invariant StackOK), no failing debug assertion in eval. The checker is evaluated on every real table. Theorem lr_no_internal (Props/C19b): the same for the LR parser model under the verified checker lrTableComplete (lrTableValid + all shift/goto targets in range + a goto on the left-hand side exists wherever a reduction can land), also evaluated on every real LALR(1) table. Theorem ll_terminates_bound (Props/C19c): for LL tables passing tablesSoundB and the verified certificate checker noLeftRecB (a nullable-closed set and weights w[lhs] >= 2 + weight of the nullable prefix and first non-nullable symbol of every right-hand side — exists iff there is no left recursion, also through nullable prefixes) the parser model terminates within llFuelBound T n = M*W*(n+1)+M+2 loop iterations on EVERY input of n tokens (potential argument); the checker is evaluated on every real LL table; exTLeftRec_not_terminates shows the hypothesis is needed; par_parsers_terminate (Props/C19d) evaluates it in the kernel on parol's own two PAR parser tables. PARTIAL: LR termination (false in general: F24) and recovery are not theorems; they are explored — both real parsers on garbled inputs with recovery on and off under catch_unwind (no panic, no internal/data/lexer error), and a per-process watchdog on cyclic LALR(1) grammars.",
+    "text": "Theorem ll_no_internal: for every LL table set accepted by the verified checker tablesInRangeB (start, left-hand sides, non-terminals and predictable productions in range; no end-of-production marker or T(0) inside a right-hand side; sorted automata; an accepting start state has no transitions) and EVERY input and option record, the model of LLKParser::parse_into never reaches an internal outcome — no index out of range, no parse-tree-stack underflow in process_item_stack (stack discipline invariant StackOK), no failing debug assertion in eval. The checker is evaluated on every real table. Theorem lr_no_internal (Props/C19b): the same for the LR parser model under the verified checker lrTableComplete (lrTableValid + all shift/goto targets in range + a goto on the left-hand side exists wherever a reduction can land), also evaluated on every real LALR(1) table. Theorem ll_terminates_bound (Props/C19c): for LL tables passing tablesSoundB and the verified certificate checker noLeftRecB (a nullable-closed set and weights w[lhs] >= 2 + weight of the nullable prefix and first non-nullable symbol of every right-hand side — exists iff there is no left recursion, also through nullable prefixes) the parser model terminates within llFuelBound T n = M*W*(n+1)+M+2 loop iterations on EVERY input of n tokens (potential argument); the checker is evaluated on every real LL table; exTLeftRec_not_terminates shows the hypothesis is needed; par_parsers_terminate (Props/C19d) evaluates it in the kernel on parol's own two PAR parser tables. Theorem lr_terminates_bound (Props/C19e): for every LR table accepted by the verified checker lrNoReduceLoopB (summaries of all reduce-only computations per (lookahead, state below, top state), verified against one unfolding of the parser step) the LR parser model terminates within (|toks|+1)(C^2+3C+1) iterations on every input; the checker is evaluated on every real LALR(1) table; f24_never_terminates / hlr_never_terminates prove non-termination for two real parol tables the checker rejects (finding F24). PARTIAL: that parol only generates tables passing the checker is false (F24) and recovery is not a theorem; they are explored — both real parsers on garbled inputs with recovery on and off under catch_unwind (no panic, no internal/data/lexer error), and a per-process watchdog on cyclic LALR(1) grammars.",
     "design_ref": "DESIGN.md §6 C19",
-    "note": "Partial claim: proofs for LL and LR index/stack safety and LL termination, not for LR termination. Known finding F24 (LR parser does not terminate on cyclic grammars accepted with resolved conflicts) is reproduced by the watchdog and reported as KNOWN-FINDING. Trusted: Lean kernel; faithfulness of the model as observed; harness, watchdog limits (4 s, 3 GB).",
-    "technique": "Lean 4 proof (LL and LR index safety, LL termination with explicit bound) over hand-written model + differential correspondence check on garbled inputs + watchdog exploration",
+    "note": "Proofs for LL and LR index/stack safety and LL and LR termination under checked table hypotheses; recovery and real time are explored only. Known finding F24 (LR parser does not terminate on cyclic grammars accepted with resolved conflicts) is reproduced by the watchdog and reported as KNOWN-FINDING. Trusted: Lean kernel; faithfulness of the model as observed; harness, watchdog limits (4 s, 3 GB).",
+    "technique": "Lean 4 proof (LL and LR index safety, LL and LR termination with explicit bounds under checked table hypotheses) over hand-written model + differential correspondence check on garbled inputs + watchdog exploration",
 }
 
 
